@@ -3,7 +3,7 @@ PROP = {'engine': 'stack',
  'test': 'TestC12',
  'level': 'exploration',
  'quick': {'checks': 500, 'shards': 12, 'timeout': 1200},
- 'thorough': {'checks': 6000, 'shards': 14, 'timeout': 3400},
+ 'thorough': {'checks': 15000, 'shards': 14, 'timeout': 3400},
  'rule': 'rapid draws, guided by a reference automaton, a sequence of <=14 moves of one runtime process over {next, response(current id), '
          'response(previous id), response(garbage id), error(current id), init/error, restore/next, restore/error, unknown route, wrong method} '
          'interleaved with the platform events {an invocation arrives, restore requested}, in plain and in snapshot mode; the generator only '
